@@ -2,20 +2,16 @@
 """Regenerates MANIFEST.json from the table below; properties whose check is not built yet go to not_applicable."""
 import json, subprocess
 
-# id -> (technique, level text, level note)
-CHECKS = {
- 'C01': ('static analysis: SSA value-flow (key normalisation), CFG edge guards and must-pass ordering on the vhost trie and serveHTTP',
-         'Structural necessary conditions of the routing property decided on every path of the anchored functions: normalised host key on writer and reader, handler chain only on the matched edge and site-not-found on the other, exact→wildcard→fallback lookup order, longest-prefix walk shape. Not the precedence arithmetic itself.'),
- 'C08': ('static analysis: SSA CFG acquire/release pairing (typestate) over every function of the module',
-         'Structural necessary conditions: every mutex acquired anywhere in the module is released on every exit (a leaked lock makes the next load hang). Does not decide the behavioural property as a whole.'),
-}
+built = {}
+for l in subprocess.run(['/verif/bin/casketlint', 'list', '--json'], capture_output=True, text=True).stdout.splitlines():
+    d = json.loads(l); built[d['id']] = d
 NA_REASON = 'check not built yet in this session (static rules designed in DESIGN.md §2; will be claimed at level other once armed)'
 props = [json.loads(l)['id'] for l in open('/verif/properties.jsonl')]
-built = set(subprocess.run(['/verif/bin/casketlint', 'list'], capture_output=True, text=True).stdout.split())
 checks, na = [], []
 for p in props:
-    if p in CHECKS and p in built:
-        tech, text = CHECKS[p]
+    if p in built:
+        tech = built[p]['technique']
+        text = 'Structural necessary conditions decided from /repo\'s source on every path of the anchored code: ' + built[p]['decided'] + ' NOT decided (stated plainly): ' + built[p]['not_decided']
         checks.append({
             'property_id': p,
             'quick_cmd': './bin/casketlint check %s --tier quick' % p,
